@@ -720,6 +720,18 @@ func (w *schedWorld) complete(id string, outcome string) {
 	// wait until the result has moved from "reserved" into the scheduler's event queue, so that results are
 	// queued in completion order (otherwise two completions race through their reserving goroutines)
 	_, res0 := w.sch.VerifQueueLen()
+	for i := 0; i < 200 && res0 == 0; i++ { // (not a race with Reserve: that is synchronous; only to be sure)
+		time.Sleep(time.Millisecond)
+		_, res0 = w.sch.VerifQueueLen()
+	}
+	if res0 == 0 {
+		// the scheduler holds NO reservation although this work function is still running: it has stopped waiting for
+		// the outcome (and has reported, or will report, something else as this task's result) - C06
+		w.log("mismatch C06 the work function of " + id + " is still running but the scheduler no longer waits for its result (no reservation outstanding): the outcome " + outcome + " can never be recorded")
+		ch <- outcomeErr(outcome)
+		close(ch)
+		return
+	}
 	ch <- outcomeErr(outcome)
 	close(ch)
 	for i := 0; i < 4000; i++ {
